@@ -76,6 +76,9 @@ impl Case15 {
                         Ok(t) => t,
                         Err(_) => return Err(("discard".into(), "stack not admissible".into())),
                     };
+                    if !cur_ref.all_finite() || cur_ref.vals.iter().any(|v| !v.vm.is_finite() || v.vm > 1e8) {
+                        return Err(("discard".into(), "values leave the well-conditioned domain (overflow in exp/softmax)".into()));
+                    }
                     if ops::kink_count() > kinks && !exact {
                         return Err(("discard".into(), "a relu input is zero only up to rounding".into()));
                     }
